@@ -64,9 +64,28 @@ pub fn lockstep_irq(m: &mut Machine, r: &mut Ref, assembly: bool, which: Which, 
         entry_words = 8;
     }
     if irq && out == Outcome::Done && up.op >= 0xF0 && up.op2 == 0x2C {
-        // the library drops interrupt status bits when 0x2C is loaded into the IR; with a pending key
-        // press the observable status differs: outside the instruction-level model
-        out = Outcome::Undefined;
+        // the library drops interrupt status bits when 0x2C is loaded into the IR, so a read of the
+        // status register *after* that latch (the ((R0+)) destination chain) is outside the
+        // instruction-level model; everything else about this CMP is checked like any other
+        let peek = |a: u8| -> Option<u8> {
+            if a <= 0xEF {
+                Some(before.ram[a as usize])
+            } else if a >= 0xFC {
+                Some(before.inp[(a - 0xFC) as usize])
+            } else {
+                None
+            }
+        };
+        let mut through_io = false;
+        for p in [before.r[0], before.r[0].wrapping_add(1)] {
+            match peek(p) {
+                None => through_io = true,
+                Some(a) => through_io |= peek(a).is_none(),
+            }
+        }
+        if through_io {
+            out = Outcome::Undefined;
+        }
     }
     // SP supervision (stack size 0): any SP value written on the way, not only the final one
     let sp_invalid = r.sp >= 0xF0 || r.sp_trace.iter().any(|v| *v >= 0xF0);
